@@ -42,8 +42,13 @@ package ingest
 //@   havoc
 //@ func NewModifiedFeaturesWithCopies
 //@   havoc
+// (C38 verifies Update itself against the requires/ensures below; callers see it havocked.)
 //@ func (*ModifiedFeatures).Update
 //@   havoc
+//@   requires m != nil && len(m.features) >= 1 && m.features[0] != nil
+//@   requires implies(m.existing != nil, ref(m.existing) != ref(m.features[0]))
+//@   ensures ref(m.features[0]) != old(ref(m.features[0]))
+//@   ensures implies(old(m.existing) != nil, ref(m.features[0]) == old(ref(m.existing)))
 
 // ---- C26: what Change.Apply returned is recorded in the caller's ghost state ----
 //@ func Change.Apply
@@ -168,3 +173,16 @@ package ingest
 //@   loop 2 invariant realW == ref(w) && canaryOK == len(m) && rangeindex >= -1
 //@   ensures implies(result1 != nil && touched, canaryOK == len(m))
 //@   ensures implies(result1 == nil, canaryOK == len(m))
+
+
+// ---- C38: what a world stores is never the caller's object -------------------------------
+// ModifiedFeatures.Update either merges the caller's feature into the object the world
+// already holds or stores a clone; the caller's own object never becomes the stored one.
+// (That a clone shares no slice with its source is the bounded part of C38.)
+//@ func Feature.Clone
+//@   trusted
+//@   ensures result != nil && fresh(result)
+// Merging through the Feature interface (GenericFeature): assumed not to touch the
+// ModifiedFeatures bookkeeping.
+//@ func Feature.MergeFrom
+//@   trusted
